@@ -66,7 +66,7 @@ def run(ctx):
         progs.append([l for l in gen.random_flow(rng).split("\n") if l.strip()])
     for _ in range(40 * k):
         progs.append([l for l in gen.stack_fuzz(rng).split("\n") if l.strip()])
-    for _ in range(60 * k):
+    for _ in range(200 * k):
         f, b = gen.det_prog(rng)
         if len(f) == 1:
             progs.append([l for l in f[0][1].split("\n") if l.strip()])
@@ -75,8 +75,11 @@ def run(ctx):
     for p in progs:
         items = [C13.parse_line(l) for l in p]
         labels = sorted(set(it[1] for it in items if it[0] == "label"))
-        fresh = rng.sample(["zz%d" % i for i in range(200)] + ["Q_%d_x" % i for i in range(50)] + ["a%db" % i for i in range(50)] + ["_", "__a", "x32", "t7", "s12", "ra2"], len(labels))
+        fresh = rng.sample(["__return__"] + ["zz%d" % i for i in range(200)] + ["Q_%d_x" % i for i in range(50)] + ["a%db" % i for i in range(50)] + ["_", "__a", "x32", "t7", "s12", "ra2"], len(labels))
         rho = dict(zip(labels, fresh)) if rng.random() < 0.8 else {}
+        called = sorted(set(it[2][-1] for it in items if it[0] == "inst" and it[1] in ("jal", "call") and it[2] and it[2][-1] in labels))
+        if rho and called and rng.random() < 0.4 and "__return__" not in rho.values():
+            rho[rng.choice(called)] = "__return__"       # a valid identifier that the analyzer once used internally
         sigma = list(range(32))
         if rng.random() < 0.85:
             t2 = TEMPS[:]
